@@ -406,7 +406,7 @@ func runStoreHistory(c *core.Ctx, mainSpec gen.StoreSpec, argSpecs func(r *rng.R
 		n = r.Range(100, 400)
 		h.opts.MaxRanks = 6
 	}
-	if c.Tier == "thorough" && c.Index%2000 == 7 {
+	if c.Tier == "thorough" && (c.Index%2000 == 6 || c.Index%2000 == 7) {
 		// soak: a long history with the oracles evaluated at checkpoints and at the end
 		n = r.Range(20000, 100000)
 		h.checkEvery = 499
